@@ -253,6 +253,8 @@ class Model:
             for s in n.body:
                 if isinstance(s, ast.Assign) and len(s.targets) == 1 and isinstance(s.targets[0], ast.Name):
                     ci.class_assigns[s.targets[0].id] = s.value
+                if isinstance(s, ast.AnnAssign) and isinstance(s.target, ast.Name) and s.value is not None:
+                    ci.class_assigns[s.target.id] = s.value
                 for t in (s.targets if isinstance(s, ast.Assign) else []):
                     if isinstance(t, ast.Name):
                         ci.class_assigns[t.id] = s.value
